@@ -507,6 +507,9 @@ def instances(tier):
         for adiabatic in (False, True):
             inst.append(dict(label='bundle-limit[rings=%d,ducts=%d,adiabatic=%s]' % (n, nduct, adiabatic), body=body_wrapper,
                              params={'n_ring': n, 'n_duct': nduct, 'adiabatic': adiabatic}, max_paths=400, max_depth=200, timeout_ms=120000))
+    from harness.c06_isolation import body_mesh_req
+    for codes in (('3-22', '1-111'), ('2-22', '6-66'), ('1-111', '3-22')):
+        inst.append(dict(label='reactor-requirement[limiting cells %s / %s]' % codes, body=body_mesh_req, params={'codes': codes}))
     for n in (2, 3):
         inst.append(dict(label='stagnant-bypass[rings=%d]' % n, body=body_stagnant, params={'n_ring': n, 'n_duct': 2}))
     for lay in (('one-a2', 'two-a2-a3', 'three-a2-a3-ur') if tier == 'quick' else ('one-a2', 'two-a2-a3', 'three-a2-a3-ur', 'three-a3-dd-u6', 'ring-no-centre')):
